@@ -124,6 +124,25 @@ type built struct {
 	info   uint32 // information dictionary of the newest trailer (0: none)
 	h      history
 	crypt  *cryptSetup
+	pad    int // "many numbers" family: object numbers 1..pad are in use
+}
+
+// numOf is the object number of model object i (1-based).  In the "many
+// numbers" family the model objects are spread over 1..pad, the highest
+// number included; all other numbers hold tiny filler objects.
+func (b *built) numOf(i int) uint32 {
+	if b.pad == 0 {
+		return uint32(i)
+	}
+	switch i {
+	case 1:
+		return 3
+	case 2:
+		return uint32(b.pad / 2)
+	case 3:
+		return uint32(b.pad)
+	}
+	return uint32(3 + 2*i)
 }
 
 // infoNum is the number of the information dictionary revision r writes.
@@ -133,10 +152,13 @@ func (b *built) infoNum(r int) uint32 { return b.cat + 1 + uint32(r) }
 // objects 1..N as the history says, plus a catalog (N+1) and a page tree root
 // (N+2) written by the first revision, and for every revision r whose trailer
 // has /Info an information dictionary of its own (N+2+r, /Title "history r").
-func concretise(h history, rng *rand.Rand, cs *cryptSetup) *built {
+func concretise(h history, rng *rand.Rand, cs *cryptSetup, pad int) *built {
 	n := h.nObj()
+	if pad > 0 {
+		n = pad
+	}
 	b := &built{doc: &ser.Doc{Version: []string{"1.5", "1.6", "1.7", "2.0"}[rng.Intn(4)]}, values: map[[2]int]obj.Value{},
-		cat: uint32(n + 1), h: h, crypt: cs}
+		cat: uint32(n + 1), h: h, crypt: cs, pad: pad}
 	if h[len(h)-1].has("Info") {
 		b.info = b.infoNum(len(h))
 	}
@@ -159,7 +181,7 @@ func concretise(h history, rng *rand.Rand, cs *cryptSetup) *built {
 			sr.Kind = ser.Hybrid
 		}
 		for i, op := range rv.O {
-			num := uint32(i + 1)
+			num := b.numOf(i + 1)
 			switch op {
 			case "keep":
 			case "def", "defc", "hdef", "hdefc":
@@ -175,6 +197,18 @@ func concretise(h history, rng *rand.Rand, cs *cryptSetup) *built {
 				sr.Ops = append(sr.Ops, ser.Op{Num: num, Kind: ser.Free, Style: ser.Linked})
 			case "freer":
 				sr.Ops = append(sr.Ops, ser.Op{Num: num, Kind: ser.Free, Style: ser.Retired})
+			}
+		}
+		if r == 1 && pad > 0 {
+			// tiny filler objects on every other number
+			model := map[uint32]bool{}
+			for i := range rv.O {
+				model[b.numOf(i+1)] = true
+			}
+			for num := uint32(1); num <= uint32(pad); num++ {
+				if !model[num] {
+					sr.Ops = append(sr.Ops, ser.Op{Num: num, Kind: ser.Define, Value: obj.Int(num)})
+				}
 			}
 		}
 		if r == 1 {
@@ -335,7 +369,7 @@ func observe(h history, b *built, data []byte, size uint32, seed int64) histReco
 	defer r.Close()
 	rec.Open = true
 	for _, p := range probesFor(h.nObj()) {
-		num := uint32(p.N)
+		num := b.numOf(p.N)
 		if p.N == beyond {
 			num = size + uint32(p.G)*3
 		}
